@@ -638,9 +638,107 @@ def record_for_model(ctx, case, markup, kw, soup, err, wkinds, cmds, pending, ta
         impl = ("raise", exc_class(err))
     cmds.append([6003, T.enc_cfg(CFG), m_in, dm, table, cbs, fin])
     pending.append((case, impl, wkinds, True))
+    if BYTES_LEVEL_TIE and isinstance(markup, bytes) and bytes_level_ok(markup, kw):
+        # bytes within the concrete codecs of Model/Codecs.v: C07's concrete prepare_markup, then the string-level pipeline
+        bq = ctx.__dict__.setdefault("_c06_bytes", ([], []))
+        bq[0].append([6006, T.enc_cfg(CFG), markup, T_opt(kw.get("from_encoding")), list(kw.get("exclude_encodings") or [])])
+        bq[1].append((case, impl, wkinds))
+    if isinstance(markup, str) and not kw and len(markup) > STR_LEVEL_MAX:
+        ctx.count("string_level_skipped_long_inputs")
+    if isinstance(markup, str) and not kw and len(markup) <= STR_LEVEL_MAX:
+        # the same input through the string-level model: tokenizer model -> adapter -> feed() -> retry loop, nothing recorded
+        sq = ctx.__dict__.setdefault("_c06_str", ([], []))
+        sq[0].append([6005, T.enc_cfg(CFG), markup])
+        sq[1].append((case, impl, wkinds, fin != [0]))
+
+
+STR_LEVEL_MAX = 1500       # longer inputs (deep nesting, numeric references of thousands of digits - on which the extracted model takes minutes) go through the recorded-callback route only; counted in the evidence
+
+
+def lower_tag_labels(res):
+    """html.parser lower-cases tag names with str.lower(); the tokenizer model does it for ASCII letters only."""
+    if isinstance(res, list) and res and res[0] == 0:
+        for c in res[1][0]:
+            if c[0] == 0:
+                c[8] = [ord(ch) for ch in "".join(map(chr, c[8])).lower()]
+    return res
+
+
+SAFE_CODECS = ("utf-8", "ascii", "latin-1", "windows-1252", "iso-8859-1")
+BYTES_LEVEL_TIE = os.environ.get("C06_BYTES_TIE", "0") == "1"   # off by default: with it a quick run did not finish in 25 min (C07's concrete prepare_markup model is slow on some inputs); command 6006 stays available
+BYTES_LEVEL_MAX = 160        # the declared-encoding scanner of C07's model is slow on long inputs
+
+
+def bytes_level_ok(markup, kw):
+    """The detection stays within the codecs the model has: no declared charset, only modelled names as arguments."""
+    if len(markup) > BYTES_LEVEL_MAX or set(kw) - {"from_encoding", "exclude_encodings"}:
+        return False
+    if kw.get("from_encoding") is not None and kw["from_encoding"] not in SAFE_CODECS:
+        return False
+    if any(e not in SAFE_CODECS for e in (kw.get("exclude_encodings") or [])):
+        return False
+    low = markup.lower().replace(b"\x00", b"")
+    return b"charset" not in low and b"encoding" not in low
+
+
+def flush_bytes_level(ctx):
+    bq = ctx.__dict__.get("_c06_bytes")
+    if not bq or not bq[0]:
+        return
+    cmds, pending = bq
+    for (case, impl, wkinds), m in zip(pending, ctx.model.run(cmds)):
+        ctx.count("bytes_level_cases")
+        if isinstance(m, tuple):
+            ctx.disagree("constructor on bytes ~ Model.ConstructBytes.construct_bytes", case, impl[0], m[1][:80])
+            continue
+        res, mw = m
+        if sorted(mw) != sorted(wkinds):
+            ctx.disagree("pre-parse heuristics (warnings issued) ~ Model.ConstructBytes.construct_bytes", case, wkinds, mw)
+        compare_cres("constructor on bytes ~ Model.ConstructBytes.construct_bytes (concrete codecs, tokenizer model, nothing recorded)",
+                     ctx, case, impl, lower_tag_labels(res))
+    del cmds[:]
+    del pending[:]
+
+
+def flush_str_level(ctx):
+    import time as _t, sys as _s
+    _t0 = _t.time()
+    try:
+        return _flush_str_level(ctx)
+    finally:
+        ctx.__dict__["_c06_str_secs"] = ctx.__dict__.get("_c06_str_secs", 0.0) + _t.time() - _t0
+        print("flush_str_level total %.1fs" % ctx.__dict__["_c06_str_secs"], file=_s.stderr)
+
+
+def _flush_str_level(ctx):
+    flush_bytes_level(ctx)
+    sq = ctx.__dict__.get("_c06_str")
+    if not sq or not sq[0]:
+        return
+    cmds, pending = sq
+    for (case, impl, wkinds, recorder_failed), m in zip(pending, ctx.model.run(cmds)):
+        ctx.count("string_level_cases")
+        if isinstance(m, tuple):
+            ctx.disagree("constructor on a str ~ Model.ConstructStr.construct_str", case, impl[0], m[1][:80])
+            continue
+        res, mw, refused, unesc_failed = m
+        if sorted(mw) != sorted(wkinds):
+            ctx.disagree("pre-parse heuristics (warnings issued) ~ Model.ConstructStr.construct_str", case, wkinds, mw)
+        if bool(refused) != recorder_failed:
+            ctx.disagree("html.parser refuses the text (AssertionError / ValueError) ~ Model.ConstructStr.str_rejects", case,
+                         recorder_failed, bool(refused))
+        if refused:
+            ctx.count("string_level_refused")
+        if unesc_failed:
+            ctx.count("string_level_unescape_failed")
+        compare_cres("constructor on a str ~ Model.ConstructStr.construct_str (tokenizer model, nothing recorded)", ctx, case, impl,
+                     lower_tag_labels(res))
+    del cmds[:]
+    del pending[:]
 
 
 def flush_model(ctx, cmds, pending):
+    flush_str_level(ctx)
     if not cmds:
         return
     for (case, impl, wkinds, tree_ok), m in zip(pending, ctx.model.run(cmds)):
